@@ -56,6 +56,11 @@ func runC04(c *core.Ctx) {
 		if c.Mine(i) && c.Want("long/"+t.Name) {
 			c04Case(c, t, 1+i%8, 6, 1, 3, "long/"+t.Name, 10000)
 		}
+		if c.Mine(i+9) && c.Want("wide/"+t.Name) {
+			// several hundred channels: the channel count must not be squeezed
+			// into a narrow integer anywhere
+			c04Case(c, t, []int{255, 256, 257, 300, 1000}[i%5], 3, 1, 2, "wide/"+t.Name, 0)
+		}
 		if c.Mine(i+5) && c.Want("large/"+t.Name) {
 			c04Case(c, t, 1+(i+3)%8, 700, 2, 5, "large/"+t.Name, 0)
 		}
@@ -65,6 +70,13 @@ func runC04(c *core.Ctx) {
 }
 
 func c04Case(c *core.Ctx, t *dyn.TypeOps, ch, k, s, e int, caseID string, forceCalls int) {
+	if p, msg := core.Guard(func() { c04CaseBody(c, t, ch, k, s, e, caseID, forceCalls) }); p {
+		c.Violate("AppendSample["+t.Name+"]|panic", caseID, fmt.Sprintf("the scenario (window Slice(%d,%d) of a %d-channel, %d-frame buffer, full-capacity alias, sample appends) panicked: %s", s, e, ch, k, msg),
+			map[string]any{"type": t.Name, "channels": ch, "parent_frames": k, "window": []int{s, e}})
+	}
+}
+
+func c04CaseBody(c *core.Ctx, t *dyn.TypeOps, ch, k, s, e int, caseID string, forceCalls int) {
 	inst := "AppendSample[" + t.Name + "]"
 	w := mon.NewWorld(t)
 	b := t.Alloc(signal.Allocator{Channels: ch, Length: k, Capacity: k})
